@@ -514,3 +514,45 @@ def f8(ctx):
                     ok = False
             if not ok:
                 ctx.violate(key, p, 'the stream\'s future is not a fresh receive future marked is_stream=true (the second item would panic "polled after result is already returned")')
+
+
+@rule('F9', ['C16', 'C18'], 'FusedStream::is_terminated of the stream is true only when nothing can be yielded any more (no sender left and buffer empty, or the stream already ended)', needs_async=True)
+def f9(ctx):
+    import itertools
+    from rules_life import path_consistent, eval_bool
+    key = "<future::ReceiveStream<'_, T> as futures_core::FusedStream>::is_terminated"
+    b = ctx.body(key)
+    if b is None:
+        ctx.violate(key, None, 'anchor missing', sig='anchor')
+        return
+    ctx.instance(key)
+    paths = [(p, evs) for p, evs in all_paths(ctx, b) if p.end == 'return']
+    atoms = ['cap_max', 'qempty', 'sc0', 'rc0', 'full']
+    for p, evs in paths:
+        ctx.oblige(1, sample='is_terminated -> %s' % fmt(p.ret)[:100])
+        if any(e.name in ('WR', 'WRMEM', 'NEXT_SEND', 'NEXT_RECV', 'PUSH_RECV', 'Q.pop_front', 'Q.push_back', 'Q.clear') for e in evs):
+            ctx.violate(key, p, 'is_terminated changes state')
+    for vals in itertools.product([False, True], repeat=len(atoms)):
+        a = dict(zip(atoms, vals))
+        results = set()
+        unknown = False
+        for p, evs in paths:
+            ev2 = [e for e in evs if not (e.name == 'BR' and e.data['label'] == 'terminated')]
+            term = [e for e in evs if e.name == 'BR' and e.data['label'] == 'terminated' and e.data['outcome'] == 'T']
+            c = path_consistent(ev2, a)
+            if c is None:
+                unknown = True
+                break
+            if c:
+                if term and p.ret is not None and p.ret[0] == 'const' and p.ret[2] == '1':
+                    continue  # `self.terminated || ..` : an ended stream may say so
+                results.add(eval_bool(p.ret, a))
+        want = a['sc0'] and a['qempty']
+        if unknown or None in results:
+            ctx.violate(key, None, 'is_terminated is not a recognised expression over {send_count==0, buffer empty}', sig='unrecognised')
+            break
+        if results and results != {want}:
+            ctx.violate(key, None, 'is_terminated disagrees with "no sender left and nothing buffered": under %s it returns %s, expected %s (a consumer that trusts the fused state stops while values are still buffered, or polls for ever)' % (
+                {k: v for k, v in a.items() if k in ('sc0', 'qempty')}, sorted(results), want), sig='truth-table')
+            break
+    ctx.oblige(1)
